@@ -2,6 +2,7 @@ package sim
 
 import (
 	"fmt"
+	"strings"
 	"time"
 
 	"verif.local/simrt"
@@ -58,6 +59,10 @@ func histPool() []poolCall {
 		{fn: FnApply, a: d1, patch: failTest},
 		{fn: FnApply, a: d1, patch: rootNull},
 		{fn: FnApply, a: `{"a":`, patch: ops},
+		// malformed texts of exactly the length of well-formed ones used above (a caller that reuses
+		// its buffer presents them at the same address with the same length)
+		{fn: FnApply, a: strings.Replace(d1, "]", "}", 1), patch: ops},
+		{fn: FnDecodePatch, a: strings.Replace(pad, ":7", ";7", 1)},
 		// a call that fails after an earlier operation replaced the root, and calls whose outcome
 		// would change if anything of that discarded document were still around
 		{fn: FnApply, a: d1, patch: `[{"op":"replace","path":"","value":{"secret":"s3cr3t","a":[9],"name":7}},{"op":"test","path":"/nope","value":1}]`},
@@ -91,7 +96,7 @@ func tripleScenario(seed uint64, prop, target string, pool []poolCall, idx [3]in
 
 func tupleScenario(seed uint64, prop, target string, pool []poolCall, idx []int, item int) *Scenario {
 	sc := &Scenario{Format: 1, Property: prop, Engine: "hist3", Target: target, Seed: seed}
-	sc.Cfg = Cfg{Pool: []int{simrt.PoolLIFO, simrt.PoolAdversarial, simrt.PoolFIFO}[item%3], MapOrder: item % simrt.NumMapPolicies, Warm: item%2 == 0, SpareCap: item%4 < 2, Scribble: item%8 >= 4, ScribbleResults: item%5 == 1}
+	sc.Cfg = Cfg{Pool: []int{simrt.PoolLIFO, simrt.PoolAdversarial, simrt.PoolFIFO}[item%3], MapOrder: item % simrt.NumMapPolicies, Warm: item%2 == 0, SpareCap: item%4 < 2, Scribble: item%8 >= 4, ScribbleResults: item%5 == 1, ReuseBuf: item%7 < 3}
 	bufIdx := map[string]int{}
 	buf := func(t string) int {
 		if i, ok := bufIdx[t]; ok {
